@@ -221,7 +221,39 @@ def generate(kin_src, cons_src):
     head, loop, tail = m.groups()
     if "let mut solutions: Vec<Joints> = Vec::with_capacity(9);" not in loop:
         raise TranslateError("inverse_continuing: the shift loop no longer starts from an empty `solutions`")
-    env1 = dict(env0); env1["solutions"] = ("sols", "(shiftLoop k pose_ previous_ shifts [])")
+    # the skeleton of the shift loop, read as an idiom with the singular recovery block as a hole (that block is translated
+    # statement by statement by rs2lean_ctl.py: `singularCandidateSrc`)
+    SKEL_A = ("const SINGULARITY_SHIFT: f64 = DISTANCE_TOLERANCE / 8.; const SINGULARITY_SHIFTS: [[f64; 3]; 4] = [[0., 0., 0., ], "
+              "[SINGULARITY_SHIFT, 0., 0.], [0., SINGULARITY_SHIFT, 0.], [0., 0., SINGULARITY_SHIFT]]; "
+              "let mut solutions: Vec<Joints> = Vec::with_capacity(9); let pt = pose.translation; let rotation = pose.rotation; "
+              "'shifts: for d in SINGULARITY_SHIFTS { let shifted = Pose::from_parts( Translation3::new(pt.x + d[0], pt.y + d[1], pt.z + d[2]), rotation); "
+              "let ik = self.inverse_intern(&shifted); if solutions.is_empty() { solutions.extend(&ik); } "
+              "for s_idx in 0..ik.len() { let singularity = self.kinematic_singularity(&ik[s_idx]); "
+              "if singularity.is_some() && is_valid(&ik[s_idx]) { let s; let s_n; if let Some(Singularity::A) = singularity { let mut now = ik[s_idx]; ")
+    SKEL_B = (" let check_pose = self.forward(&now); if compare_poses(&pose, &check_pose, DISTANCE_TOLERANCE, ANGULAR_TOLERANCE) && "
+              "self.constraints_compliant(now) { solutions.push(now); break 'shifts; } } break; } } }")
+    if not (loop.startswith(SKEL_A) and loop.endswith(SKEL_B)):
+        raise TranslateError("inverse_continuing: the skeleton of the shift loop changed (shift table, unshifted answers first, first singular and "
+                             "finite answer only, pose check and limit check before the push, `break 'shifts` after the push)")
+    body_v, _ = fn_body(open("/repo/src/utils/utils.rs").read(), "is_valid")
+    if flat_of(body_v) != "qs.iter().all(|&q| q.is_finite())":
+        raise TranslateError("is_valid is no longer `all finite`: " + flat_of(body_v))
+    L.append("/-- the table `SINGULARITY_SHIFTS` -/\ndef shiftsSrc : List (V3 R) := [⟨0, 0, 0⟩, ⟨singShift, 0, 0⟩, ⟨0, singShift, 0⟩, ⟨0, 0, singShift⟩]\n")
+    L.append("/-- one iteration of `'shifts: for d in SINGULARITY_SHIFTS` (new `solutions`, whether `break 'shifts` was taken); `recover` is the\n"
+             "singular recovery block (`(now[J4], now[J5], now[J6])` from `previous` and the raw answer) -/\n"
+             "def shiftStepSrc (recover : J6 R → J6 R → R × R × R) (k : Opw R) (pose_ : Iso R) (previous_ : J6 R) (solutions_ : List (J6 R)) (d : V3 R) :\n"
+             "    List (J6 R) × Bool :=\n"
+             "  let shifted_ : Iso R := ⟨⟨pose_.t.x + d.x, pose_.t.y + d.y, pose_.t.z + d.z⟩, pose_.q⟩;\n"
+             "  let ik_ : List (J6 R) := inverseIntern k.p shifted_;\n"
+             "  let solutions_ : List (J6 R) := if solutions_.isEmpty then solutions_ ++ ik_ else solutions_;\n"
+             "  match ik_.find? (fun s => kinematicSingularity k.p s && s.allFinite) with\n"
+             "  | none => (solutions_, false)\n"
+             "  | some raw =>\n"
+             "    let r := recover previous_ raw;\n"
+             "    let now_ : J6 R := { raw with j4 := r.1, j5 := r.2.1, j6 := r.2.2 };\n"
+             "    if comparePoses pose_ (forward k.p now_) distTol angTol && compliantOptSrc k now_ then (solutions_ ++ [now_], true)\n"
+             "    else (solutions_, false)\n")
+    env1 = dict(env0); env1["solutions"] = ("sols", "(shiftLoop k pose_ previous_ shiftsSrc [])")
     L.append("/-- `<OPWKinematics as Kinematics>::inverse_continuing`: 5-DOF dispatch, sentinel, [the shift loop = the model's `shiftLoop`,\n"
              "whose singular branch is tied separately], normalise, sort, filter -/\n"
              "def inverseContinuingSrc (k : Opw R) (pose_ : Iso R) (prev_ : J6 R) : List (J6 R) :=\n"
